@@ -27,6 +27,8 @@ pub trait SimHooks: Send + Sync {
     fn idle_exit(&self);
     /// Called on the caller thread after `quit` was sent and before the search thread is joined.
     fn before_join(&self);
+    /// Called on the caller thread right before a message is put into the search thread's channel.
+    fn before_send(&self);
 }
 
 static HOOKS: RwLock<Option<Arc<dyn SimHooks>>> = RwLock::new(None);
@@ -75,6 +77,10 @@ pub fn idle_enter(bitboard: &Bitboard) {
 
 pub fn idle_exit() {
     if let Some(h) = hooks() { h.idle_exit(); }
+}
+
+pub fn before_send() {
+    if let Some(h) = hooks() { h.before_send(); }
 }
 
 pub fn before_join() {
